@@ -558,7 +558,7 @@ func init() {
 		Rule: "values built through the Go API (no literal needed): strings and chars over every byte / code-point class incl. invalid UTF-8, symbols needing quotes, Float/Float32/Float64/BigFloat incl. ±0, subnormals, ±Inf, NaN, big and fixed-width ints at their limits, regexes x 64 flag sets, all eight range kinds, lists/tuples nested <= 2; inspect output is compiled and evaluated by the real pipeline (24 per program) and compared bit-for-bit / byte-for-byte / by == and class; integer literals in every base prefix with _ separators and suffixes, String#to_int in bases 2..36 against math/big; distinct = (kind, escape forms) and (base, suffix) cells",
 		NumCases: func(tier string) int {
 			if tier == "thorough" {
-				return 40000
+				return 8000
 			}
 			return 1600
 		},
